@@ -21,22 +21,44 @@ def value_table(C):
         'Plain': {'i': ints, 'f': floats, 's': strs, 'by': [b'', b'a', b'\x00\xff\'"'], 'b': [True, False], 'v': generic, 'l': lists,
                   't': tuples2, 'd': [{}, {'a': 1}, {'a': (1,), 'b': [1, 2]}, {'é': None}],
                   'dd': [{}, {'a': 1}, {'a': 1, 'b': 2, 'c': 3}, {'b': 2, 'a': 1}, {'a': 1, 'b': 3}], 'ld': [[{'a': 1}, 3], [{'a': 1, 'b': 2}], [], [{'a': 1, 'b': 2}, 3]],
-                  'child': ['LEAF0', 'LEAF1', 'LEAF2'], 'name': ['explicit', 'Plain99', "we'ird"]},
+                  'child': ['LEAF0', 'LEAF1', 'LEAF2', 'LEAF3'],
+                  'name': ['explicit', 'Plain99', "we'ird", 'Plain3_x', 'Plain2D', 'xPlain12', '12', 'Plain00012 ', 'plain7', 'Plain12\n']},
         'Positional': {'i': ints, 's': strs[:5], 'v': generic, 'f': floats[:5], 'name': ['explicit']},
-        'KwDefault': {'i': [0, 7, 5], 'v': generic[:10], 'name': ['n1']},
-        'Nested': {'a': ['PLAIN0', 'PLAIN1', 'PLAIN2'], 'items': lists, 'v': generic[:12] + ['LEAF2'], 'name': ['top']},
+        'KwDefault': {'i': [0, 7, 5], 'v': generic[:10], 'name': ['n1', 'KwDefault5b']},
+        'Nested': {'a': ['PLAIN0', 'PLAIN1', 'PLAIN2'], 'items': lists, 'v': generic[:12] + ['LEAF2', 'LEAF3', 'NEST0', 'NEST1'], 'name': ['top', 'Nested1.2']},
     }
 
 
 def resolve(C, v):
     """symbolic nested objects -> fresh Parameterized instances"""
     if isinstance(v, str) and v.startswith('LEAF'):
-        return [C.Leaf(), C.Leaf(x=2.5, tag="it's"), C.Leaf(x=-INF, name='named_leaf')][int(v[4])]
+        return [C.Leaf(), C.Leaf(x=2.5, tag="it's"), C.Leaf(x=-INF, name='named_leaf'), C.Leaf(x=4, name='Leaf3_conv')][int(v[4])]
+    if isinstance(v, str) and v.startswith('NEST'):
+        return [C.Nested(), C.Nested(a=C.Plain(child=C.Leaf(tag='deep'), name='Plain7b'), items=[C.Leaf(x=3)], v=C.Nested(v=(1,)))][int(v[4])]
     if isinstance(v, str) and v.startswith('PLAIN'):
         return [C.Plain(), C.Plain(i=3, s='q"', t=(1, (2,)), v=(5,)), C.Plain(child=C.Leaf(x=9), l=[(1,)], f=-2.0, name='inner')][int(v[5])]
     if isinstance(v, list):
         return [resolve(C, x) for x in v]
     return v
+
+
+def combos(C):
+    """states in which one nested object is reachable more than once (no cycle), or nested objects carry class-like explicit names"""
+    L = C.Leaf(x=2.5, tag='shared')
+    P = C.Plain(i=4, child=C.Leaf(x=8))
+    L2 = C.Leaf(x=6, name='Leaf12_b')
+    return {
+        'same-leaf-in-two-params': ('Plain', dict(child=L, v=L)),
+        'same-leaf-twice-in-list': ('Plain', dict(l=[L, L])),
+        'same-leaf-param-and-list': ('Plain', dict(child=L, l=[1, L])),
+        'same-plain-in-two-params': ('Nested', dict(a=P, v=P)),
+        'same-plain-param-and-list': ('Nested', dict(a=P, items=[P, 2])),
+        'same-leaf-at-two-depths': ('Nested', dict(a=C.Plain(child=L), v=L)),
+        'same-leaf-in-tuple-and-dict': ('Plain', dict(v=(L, L))),
+        'equal-distinct-leaves': ('Plain', dict(child=C.Leaf(x=2.5), v=C.Leaf(x=2.5))),
+        'class-like-names-nested': ('Nested', dict(a=C.Plain(name='Plain3_x', child=L2), items=[L2], name='Nested7-small')),
+        'auto-named-nested': ('Nested', dict(a=C.Plain(), items=[C.Leaf(), C.Leaf()], v=C.Nested())),
+    }
 
 
 def equal_vals(a, b, auto_ok=True):
@@ -88,6 +110,8 @@ class C20(Harness):
             # several parameters at once: k-th value of every parameter
             for k in range(4):
                 out.append({'cls': cname, 'set': [[p, k % len(v)] for p, v in params.items()]})
+        for name in combos(C):
+            out.append({'cls': combos(C)[name][0], 'combo': name, 'set': []})
         return out
 
     def run_case(self, case):
@@ -96,9 +120,13 @@ class C20(Harness):
         reset_globals()
         vt = value_table(C)
         cls = getattr(C, case['cls'])
-        kwargs = {p: resolve(C, vt[case['cls']][p][vi]) for p, vi in case['set']}
-        key = dict(cls=case['cls'], params='+'.join(p for p, _ in case['set']),
-                   value=repr([vt[case['cls']][p][vi] for p, vi in case['set']])[:70])
+        if case.get('combo'):
+            kwargs = combos(C)[case['combo']][1]
+            key = dict(cls=case['cls'], params='+'.join(sorted(kwargs)), value=case['combo'])
+        else:
+            kwargs = {p: resolve(C, vt[case['cls']][p][vi]) for p, vi in case['set']}
+            key = dict(cls=case['cls'], params='+'.join(p for p, _ in case['set']),
+                       value=repr([vt[case['cls']][p][vi] for p, vi in case['set']])[:70])
         try:
             if case['cls'] == 'Positional':
                 kw = dict(kwargs)
